@@ -280,6 +280,12 @@ class State:
         s.events = list(self.events)
         s.next_fid = self.next_fid
         s.forks = self.forks
+        mc = getattr(self, "_mention_cache", None)
+        if mc is not None:
+            s._mention_cache = [mc[0], set(mc[1])]
+        pa = getattr(self, "_pc_and", None)
+        if pa is not None:
+            s._pc_and = pa
         return s
 
 
@@ -300,6 +306,7 @@ class Executor:
         self.opaque_local = set(opaque_local)
         self.trace = set(trace)
         self.vars = {}  # name -> z3 var
+        self.dom = {}  # int var name -> (lo, hi)
         self.domains = []  # global domain constraints for atoms
         self.solver = z3.Solver()
         self.solver.set("timeout", 5000)
@@ -308,6 +315,7 @@ class Executor:
         self.slice_bound = slice_bound
         self.stats = {"paths": 0, "forks": 0, "solver_checks": 0, "inlined": set(), "opaque_calls": set(), "unknown": set()}
         self.fresh = 0
+        self.npre = 0
         self._by_tail = {}
         for name, fl in fns.items():
             tail = name.split("::")[-1] if "{closure" not in name.split("::")[-1] else name
@@ -350,6 +358,7 @@ class Executor:
         if name not in self.vars:
             v = z3.Int(name)
             self.vars[name] = v
+            self.dom[name] = (lo, hi)
             self.domains.append(v >= lo)
             self.solver.add(v >= lo)
             if hi is not None:
@@ -361,16 +370,69 @@ class Executor:
         self.fresh += 1
         return "%s#%d" % (tag, self.fresh)
 
+    def _vars_of(self, e, acc=None):
+        acc = set() if acc is None else acc
+        if z3.is_const(e) and e.decl().kind() == z3.Z3_OP_UNINTERPRETED:
+            acc.add(e.decl().name())
+        else:
+            for c in e.children():
+                self._vars_of(c, acc)
+        return acc
+
+    def _mentioned(self, state):
+        """names of the variables constrained so far on this path (cached incrementally on the state)"""
+        cache = getattr(state, "_mention_cache", None)
+        if cache is None or cache[0] > len(state.pc):
+            cache = [0, set()]
+        n, names = cache
+        for c in state.pc[n:]:
+            if z3.is_expr(c):
+                self._vars_of(c, names)
+        cache = [len(state.pc), names]
+        state._mention_cache = cache
+        return names
+
+    def _trivially_feasible(self, state, extra):
+        """a literal on a variable that no constraint of the path mentions yet is satisfiable by itself (domains permitting)"""
+        if not z3.is_expr(extra):
+            return False
+        e = extra
+        neg = False
+        if z3.is_not(e):
+            e, neg = e.children()[0], True
+        if z3.is_const(e) and e.decl().kind() == z3.Z3_OP_UNINTERPRETED and z3.is_bool(e):
+            return e.decl().name() not in self._mentioned(state)
+        if z3.is_eq(e):
+            a, b = e.children()
+            if z3.is_int_value(a):
+                a, b = b, a
+            if z3.is_const(a) and a.decl().kind() == z3.Z3_OP_UNINTERPRETED and z3.is_int_value(b):
+                nm = a.decl().name()
+                if nm in self._mentioned(state):
+                    return False
+                lo, hi = self.dom.get(nm, (None, None))
+                k = b.as_long()
+                if neg:
+                    return lo is None or hi is None or hi > lo or k != lo
+                return (lo is None or k >= lo) and (hi is None or k <= hi)
+        return False
+
     def feasible(self, state, extra):
+        if self._trivially_feasible(state, extra):
+            self.stats["fast_feasible"] = self.stats.get("fast_feasible", 0) + 1
+            return True
         self.stats["solver_checks"] += 1
-        self.solver.push()
-        for c in state.pc:
-            self.solver.add(c)
-        self.solver.add(extra)
-        r = self.solver.check()
+        # the path condition is passed as assumptions: nothing is re-asserted, the solver keeps only the domain constraints
+        cache = getattr(state, "_pc_and", None)
+        if cache is None or cache[0] > len(state.pc) or cache[0] < self.npre:
+            cache = (self.npre, z3.BoolVal(True))
+        n, conj = cache
+        for c in state.pc[n:]:
+            conj = z3.And(conj, c if z3.is_expr(c) else z3.BoolVal(bool(c)))
+        state._pc_and = (len(state.pc), conj)
+        r = self.solver.check(conj, extra if z3.is_expr(extra) else z3.BoolVal(bool(extra)))
         if r == z3.unknown:
             self.stats.setdefault("solver_unknown", []).append([str(c)[:200] for c in state.pc[-4:]] + [str(extra)[:300]])
-        self.solver.pop()
         return r != z3.unsat
 
     # ---- naming of symbolic paths -----------------------------------------------------------
@@ -818,8 +880,19 @@ class Executor:
             fr.locals[n] = v
         st.frames.append(fr)
         st.pc = list(pre)
+        self.npre = len(st.pc)
+        self.solver.push()
+        for c in st.pc:
+            self.solver.add(c)
         self.results = []
         work = [st]
+        try:
+            return self._run_loop(work)
+        finally:
+            self.solver.pop()
+            self.npre = 0
+
+    def _run_loop(self, work):
         while work:
             s = work.pop()
             if self.stats["paths"] >= self.max_paths:
